@@ -291,7 +291,7 @@ var bubbleEpoch = time.Date(2000, 1, 1, 0, 0, 0, 0, time.UTC)
 
 // RunExec runs one execution of sc following prefix (then choice 0).
 func RunExec(t *testing.T, sc *Scenario, prefix []int) *Exec {
-	x := &Exec{T: t, Sc: sc, event: make(chan struct{}, 1), dead: map[int]bool{}, done: map[int]bool{}, started: map[int]bool{},
+	x := &Exec{T: t, Sc: sc, dead: map[int]bool{}, done: map[int]bool{}, started: map[int]bool{},
 		lastRun: -1, prefix: prefix, Data: map[string]interface{}{}, ClientErr: map[int]error{}}
 	func() {
 		defer func() {
@@ -310,6 +310,8 @@ func RunExec(t *testing.T, sc *Scenario, prefix []int) *Exec {
 
 func (x *Exec) run() {
 	sc := x.Sc
+	// channels must be created inside the bubble: blocking on a channel from outside is not "durable" and would stop the fake clock
+	x.event = make(chan struct{}, 1)
 	epoch := sc.Epoch
 	if epoch.IsZero() {
 		epoch = time.Date(2020, 1, 1, 0, 0, 0, 0, time.UTC)
